@@ -27,6 +27,14 @@ P = {
          "string: unpack(pack v ++ trailing) = (v, size), size = |pack v|), C19_var (length-prefixed strings/bytes up to 255 bytes), C19_bit "
          "(bit i of the byte, occupies the byte only at i=7, index cycles) - all closed; implementation checked for the same relation on generated values "
          "including non-ASCII text.", "text<->bytes (UTF-8), inet_* formatting and double<->single conversion are CPython's."),
+ "C05": ("Theorems (closed) for the parameter blocks: C05_ecomax_params, C05_mixer_params, C05_thermostat_params (1- and 2-byte slots from the "
+         "generated table, profile slot, per-thermostat blocks), C05_thermostat_none, C05_schedules - for every abstract value (any start, count, "
+         "undefined holes, any trailing bytes) decoding the wire layout returns exactly the defined slots with their positions. The decoders of "
+         "sensor data (16 sections), regulator data over the 17 generated type ids, schema, alerts, UID (CRC-16 + base-32 text) and password are "
+         "executable Coq models validated against the real frame classes on generated values (Coq spec encoders / an independent layout encoder) "
+         "and on every capture of tests/testdata; determinism and payload immutability are checked on the implementation.",
+         "partial: the conformance theorems of the message decoders (sensor data chain, regulator data, alerts, UID) are stated in Spec/C05s.v and "
+         "are being proved; until then those kinds rest on model/implementation correspondence plus the functional check against the abstract value."),
  "C06": ("Theorems C06_reject (a request outside [min,max] raises, nothing is ever transmitted for that call, held triple untouched - also when "
          "the request equals an out-of-range held value) and C06_transmitted (for every history of timer expiries and reports, every set request of "
          "the call carries a value within the bounds held at the call) - closed; implementation checked on every description of every table with "
